@@ -1,5 +1,244 @@
 /-
-  Props/C15.lean — property theorems for C15 (stub; to be filled in).
+  Props/C15.lean — C15: a class behaves per its own definition, whatever else was defined or used.
+
+  Model: `Sem/World.lean` (process-wide registries threaded explicitly; keyed as the table regenerated
+  from /repo says, `Generated/Registries.lean` → `configOf`).  `view cfg w c` is what class `c` does in
+  world `w` (checks per field, required sets, key mapping, serializer, trusted shortcut, schema
+  "required", the global defaults it reads at use time).
+
+  "Defined and used alone" is `slice T h`: of the history `h` only the definitions of a set `T` of
+  classes closed under "is read by the definition of" (`closed T h`: parent and referenced classes) and
+  the toggles of global defaults, no use of any class and no other definition.  For a class without
+  parent and references, `T = {c}` and the slice of a toggle-free history is `[define c src]`.
+
+  * `frame`              : for EVERY history (induction over the op list, no bound) outside the
+                           known-finding region `Excluded`, and every class of every closed `T`:
+                           `view (run h) c = view (run (slice T h)) c`.
+  * `frame_safe_tables`  : no exclusion at all when every row of the registry table is safe.
+  * `tables_ok`          : every row of the table generated from the CURRENT tree is safe or is a listed
+                           finding — the obligation a new name-keyed cache / in-place write breaks.
+  * `C15_statement` is false of the current code: `registry_counterexample`,
+    `required_counterexample` (kernel-checked), so what holds today is `C15_partial`.
+
+  The claim is PARTIAL: only state the extractor sees is in the model; the fresh-interpreter
+  comparison of the `world` suite is the backstop.
 -/
+import TypedpyModel.Lemmas.World
+import TypedpyModel.Generated.Registries
+import TypedpyModel.Pinned.Registries
 namespace Typedpy.C15
+open Typedpy.World
+
+/-! ### the statement -/
+
+/-- C15 at full strength for a configuration: every history, every dependency-closed class set,
+    every class in it — no exclusion -/
+def C15_statement (cfg : Config) : Prop :=
+  ∀ (T : ClassId → Bool) (h : List WorldOp) (c : ClassId), closed T h = true → T c = true →
+    view cfg (runW cfg World.initial h) c = view cfg (runW cfg World.initial (slice T h)) c
+
+/-- the frame theorem: outside the known-finding region the view of a class after ANY history equals
+    its view after the sub-history it depends on -/
+theorem frame (cfg : Config) (hc : cfg.cachesById = true) (T : ClassId → Bool) (h : List WorldOp)
+    (hx : Excluded cfg h) (hcl : closed T h = true) (c : ClassId) (hT : T c = true) :
+    view cfg (runW cfg World.initial h) c = view cfg (runW cfg World.initial (slice T h)) c := by
+  have s := sim_run hc (W := wrapsOf h) hx.1 T h World.initial World.initial (fun _ hq => hq) hcl hx.2
+    (sim_initial cfg T (wrapsOf h))
+  exact view_eq_of_lookS hc s.good s.good' s.flags (s.stab c hT)
+
+/-- the literal form for a class that reads no other class, in a history without default toggles:
+    defined anywhere in any history, it behaves as when it is the only thing ever defined -/
+theorem frame_alone (cfg : Config) (hc : cfg.cachesById = true) (h : List WorldOp) (hx : Excluded cfg h)
+    (c : ClassId) (src : ClassSrc) (hcl : closed (fun d => d == c) h = true)
+    (hs : slice (fun d => d == c) h = [.define c src]) :
+    view cfg (runW cfg World.initial h) c = view cfg (runW cfg World.initial [.define c src]) c := by
+  have := frame cfg hc (fun d => d == c) h hx hcl c (by simp)
+  rw [hs] at this
+  exact this
+
+/-! ### per-operation preservation -/
+
+/-- using a class (construct, serialize, deserialize, structure_to_schema, create_serializer, trusted
+    deserialization) in a coherent world, outside the finding region, changes the view of NO class -/
+theorem use_changes_no_view (cfg : Config) (hc : cfg.cachesById = true) (W : List (String × TypeId))
+    (w : World) (g : Good cfg W w) (op : WorldOp) (huse : keepOp (fun _ => true) op = false)
+    (hq : quietStep cfg w op = true) (d : ClassId) :
+    view cfg (stepW cfg w op).1 d = view cfg w d := by
+  have p := pres_step_use hc g op huse hq
+  exact view_eq_of_lookS hc p.1 g p.2.2 (p.2.1 d)
+
+/-- coherence ("every cache entry equals the function it memoises, every installed serializer is the one
+    a fresh create_serializer would build, every implicit wrapper checks the class it was made for") is
+    preserved by every use operation -/
+theorem use_preserves_coherence (cfg : Config) (hc : cfg.cachesById = true) (W : List (String × TypeId))
+    (w : World) (g : Good cfg W w) (op : WorldOp) (huse : keepOp (fun _ => true) op = false)
+    (hq : quietStep cfg w op = true) : Good cfg W (stepW cfg w op).1 :=
+  (pres_step_use hc g op huse hq).1
+
+/-- … and by every definition whose implicit wrappers are among `W` -/
+theorem define_preserves_coherence (cfg : Config) (W : List (String × TypeId))
+    (hW : cfg.wrapperByName = true → NoClashW W) (w : World) (g : Good cfg W w) (c : ClassId) (src : ClassSrc)
+    (hsub : ∀ q ∈ wrapsOfFields src.fields, q ∈ W) : Good cfg W (stepW cfg w (.define c src)).1 :=
+  good_define hW g c src hsub
+
+/-- a definition never changes the stable part of another class ("no op other than define writes a
+    definition", and define writes only its own) -/
+theorem define_changes_no_other_class (cfg : Config) (w : World) (c : ClassId) (src : ClassSrc) (d : ClassId)
+    (h : c ≠ d) : lookS (stepW cfg w (.define c src)).1 d = lookS w d :=
+  lookS_define_other cfg w c src h
+
+/-- the constructor's accept/reject decision of a class after any history outside the finding region
+    is its decision when defined alone -/
+theorem accept_decision_frame (cfg : Config) (hc : cfg.cachesById = true) (T : ClassId → Bool)
+    (h : List WorldOp) (hx : Excluded cfg h) (hcl : closed T h = true) (c : ClassId) (hT : T c = true)
+    (kw : List (String × Arg)) :
+    (view cfg (runW cfg World.initial h) c).map (acceptsKw · kw)
+      = (view cfg (runW cfg World.initial (slice T h)) c).map (acceptsKw · kw) := by
+  rw [frame cfg hc T h hx hcl c hT]
+
+/-! ### conditional on the generated table -/
+
+def SafeTables (rows : List RegistryRec) : Prop := ∀ r ∈ rows, r.safe = true
+
+theorem any_unsafe_false {rows : List RegistryRec} (hs : SafeTables rows) (q : RegistryRec → Bool) :
+    hasRow rows (fun r => q r && !r.safe) = false := by
+  unfold hasRow
+  rw [List.any_eq_false]
+  intro r hr
+  simp [hs r hr]
+
+theorem safe_config_of_safe_tables (rows : List RegistryRec) (hs : SafeTables rows) :
+    (configOf rows).safe = true := by
+  simp [Config.safe, configOf, any_unsafe_false hs]
+
+theorem quietRun_of_no_schema_write (cfg : Config) (hs : cfg.schemaWritesRequired = false) :
+    ∀ (h : List WorldOp) (w : World), quietRun cfg w h = true
+  | [], _ => rfl
+  | op :: h, w => by
+    simp only [quietRun, Bool.and_eq_true]
+    refine ⟨?_, quietRun_of_no_schema_write cfg hs h _⟩
+    cases op <;> simp [quietStep, hs]
+
+theorem excluded_of_safe (cfg : Config) (hs : cfg.safe = true) (h : List WorldOp) : Excluded cfg h := by
+  cases cfg with
+  | mk a b c d e =>
+    cases a <;> cases d <;> simp [Config.safe] at hs
+    exact ⟨by simp, quietRun_of_no_schema_write _ rfl h World.initial⟩
+
+theorem cachesById_of_safe (cfg : Config) (hs : cfg.safe = true) : cfg.cachesById = true := by
+  cases cfg with
+  | mk a b c d e => cases a <;> cases b <;> cases c <;> cases d <;> cases e <;> simp [Config.safe, Config.cachesById] at *
+
+/-- C15 at full strength holds for every configuration whose switches are all off … -/
+theorem C15_of_safe_config (cfg : Config) (hs : cfg.safe = true) : C15_statement cfg :=
+  fun T h c hcl hT => frame cfg (cachesById_of_safe cfg hs) T h (excluded_of_safe cfg hs h) hcl c hT
+
+/-- … in particular for the code whose registry table has only safe rows: identity-keyed caches, no
+    write onto another class, no in-place write to a class's definition attributes -/
+theorem frame_safe_tables (rows : List RegistryRec) (hs : SafeTables rows) : C15_statement (configOf rows) :=
+  C15_of_safe_config _ (safe_config_of_safe_tables rows hs)
+
+/-! ### the current tree -/
+
+/-- every piece of process-wide state the extractor finds in the CURRENT tree is safe or a listed finding -/
+theorem tables_ok : ∀ r ∈ Generated.registries, r.safe = true ∨ r.findingKey ∈ Generated.knownFindingKeys := by
+  decide +kernel
+
+/-- switch-wise implication: every finding switch that is on in `a` is on in `b` -/
+def Config.le (a b : Config) : Bool :=
+  (!a.wrapperByName || b.wrapperByName) && (!a.mapperByName || b.mapperByName) &&
+  (!a.simplicityByName || b.simplicityByName) && (!a.schemaWritesRequired || b.schemaWritesRequired) &&
+  (!a.serializerOnBase || b.serializerOnBase)
+
+/-- the configuration with exactly the two known findings: wrapper registry name-keyed, `_required`
+    written in place (what the pinned table says) -/
+def currentCfg : Config := ⟨true, false, false, true, false⟩
+
+theorem pinned_config : configOf Pinned.registries = currentCfg := by decide +kernel
+
+/-- the current tree has no finding switch on beyond those of the pinned tree (a repair of a finding
+    keeps this true, a new hole does not) -/
+theorem config_no_worse : Config.le (configOf Generated.registries) (configOf Pinned.registries) = true := by
+  decide +kernel
+
+/-- the caches of the current tree are identity-keyed and `create_serializer` writes onto `cls` itself -/
+theorem current_caches_by_id : (configOf Generated.registries).cachesById = true := by decide +kernel
+
+/-- what holds of the current tree: the frame property for every history that wraps no two different
+    same-named user classes (while the wrapper registry is name-keyed) and in which structure_to_schema
+    changes no `_required` (while it writes in place) -/
+theorem C15_partial (T : ClassId → Bool) (h : List WorldOp) (hx : Excluded (configOf Generated.registries) h)
+    (hcl : closed T h = true) (c : ClassId) (hT : T c = true) :
+    view (configOf Generated.registries) (runW (configOf Generated.registries) World.initial h) c
+      = view (configOf Generated.registries) (runW (configOf Generated.registries) World.initial (slice T h)) c :=
+  frame _ current_caches_by_id T h hx hcl c hT
+
+/-! ### counterexamples (the known findings), kernel-checked on the current configuration -/
+
+def fld (name : String) (kind : FieldKind) (dflt : Bool := false) (key : String := name) : FieldSpec :=
+  { name := name, kind := kind, hasDefault := dflt, serKey := key, fastOk := true, trustedOk := true,
+    schemaOk := true, inlines := 0 }
+
+def clsA : ClassSrc := ⟨"A", none, [fld "x" (.wrap "User" 1)], false, none⟩
+def clsB : ClassSrc := ⟨"B", none, [fld "x" (.wrap "User" 2)], false, none⟩
+
+/-- two user classes both called `User` (identities 1 and 2) -/
+def hReg : List WorldOp := [.define 0 clsA, .define 1 clsB]
+
+/-- `FieldMeta._registry` keyed by bare class name: B's field is validated against A's user class -/
+theorem registry_counterexample :
+    view currentCfg (runW currentCfg World.initial hReg) 1
+      ≠ view currentCfg (runW currentCfg World.initial (slice (fun d => d == 1) hReg)) 1
+    ∧ (stepW currentCfg (runW currentCfg World.initial hReg) (.construct 1 [("x", .inst 2)])).2.accepted = false
+    ∧ (stepW currentCfg (runW currentCfg World.initial hReg) (.construct 1 [("x", .inst 1)])).2.accepted = true
+    ∧ (stepW currentCfg (runW currentCfg World.initial [.define 1 clsB]) (.construct 1 [("x", .inst 2)])).2.accepted = true := by
+  decide +kernel
+
+def clsS : ClassSrc := ⟨"S", none, [fld "a" (.prim 0) false "aa", fld "b" (.prim 2) true], false, none⟩
+def clsD : ClassSrc := ⟨"D", some (.omit 0 ["b"]), [], false, none⟩
+
+def hReq : List WorldOp := [.define 0 clsS, .toSchema 0, .define 1 clsD]
+
+/-- `structure_to_schema` writes `cls._required` in place: S's own `_required` changes, and a class
+    derived with Omit afterwards no longer requires `a` -/
+theorem required_counterexample :
+    view currentCfg (runW currentCfg World.initial hReq) 0
+      ≠ view currentCfg (runW currentCfg World.initial (slice (fun d => d == 0) hReq)) 0
+    ∧ (view currentCfg (runW currentCfg World.initial hReq) 0).map (·.required) = some ["aa", "b"]
+    ∧ (view currentCfg (runW currentCfg World.initial [.define 0 clsS]) 0).map (·.required) = some ["a"]
+    ∧ (stepW currentCfg (runW currentCfg World.initial hReq) (.construct 1 [])).2.accepted = true
+    ∧ (stepW currentCfg (runW currentCfg World.initial [.define 0 clsS, .define 1 clsD]) (.construct 1 [])).2.accepted = false := by
+  decide +kernel
+
+/-- the full statement is false of the code with the two known findings -/
+theorem C15_statement_fails_with_findings : ¬ C15_statement currentCfg := by
+  intro h
+  exact registry_counterexample.1 (h (fun d => d == 1) hReg 1 (by decide +kernel) (by decide +kernel))
+
+/-- both counterexample histories are exactly in the excluded region -/
+theorem counterexamples_are_excluded : ¬ Excluded currentCfg hReg ∧ ¬ Excluded currentCfg hReq := by
+  decide +kernel
+
+/-! ### non-vacuity -/
+
+def clsP : ClassSrc := ⟨"Order", none, [fld "id" (.prim 0), fld "who" (.wrap "User" 1), fld "n" (.prim 1) true "N"], true, none⟩
+def clsQ : ClassSrc := ⟨"Order", some (.inherit 0), [fld "extra" (.prim 2)], true, none⟩
+def clsR : ClassSrc := ⟨"Box", none, [fld "o" (.ref 1), fld "u" (.wrap "User" 1)], false, some false⟩
+
+/-- a history with same-named classes, a shared user type, inheritance, a reference, uses of every
+    kind and a toggled-and-restored global default, that lies inside the region of `frame` -/
+def hEx : List WorldOp :=
+  [.define 0 clsP, .construct 0 [("id", .prim 0 true), ("who", .inst 1)], .setDefault .addProps false,
+   .define 1 clsQ, .serialize 0 [("id", .prim 0 true), ("who", .inst 1)], .createSerializer 1,
+   .define 5 clsA, .toSchema 5, .trustedDeserialize 1 [], .setDefault .addProps true, .define 2 clsR,
+   .deserialize 2 [("o", .struct 1), ("u", .inst 1)], .toSchema 5]
+
+theorem frame_example :
+    Excluded currentCfg hEx ∧ closed (fun d => d ≤ 2) hEx = true
+    ∧ (view currentCfg (runW currentCfg World.initial hEx) 2).isSome = true
+    ∧ view currentCfg (runW currentCfg World.initial hEx) 2
+        = view currentCfg (runW currentCfg World.initial (slice (fun d => d ≤ 2) hEx)) 2
+    ∧ runW currentCfg World.initial hEx ≠ runW currentCfg World.initial (slice (fun d => d ≤ 2) hEx) := by
+  decide +kernel
+
 end Typedpy.C15
